@@ -55,6 +55,13 @@ func genLoops(t *rapid.T) LoopScenario {
 	sc.OutageFromMs = rapid.IntRange(0, 6*interval).Draw(t, "from")
 	// most outages are long enough for the limit to be reached
 	sc.OutageMs = rapid.IntRange(1, 3*sc.Limit+6).Draw(t, "len") * interval
+	if rapid.IntRange(0, 11).Draw(t, "congestion") == 0 {
+		// a congestion of thousands of refused attempts per submission loop (each answered "already in the
+		// mempool" / "not included in a block", the answers that make the node raise its gas price)
+		sc.BlockMs = 10
+		sc.OutageKind = rapid.SampledFrom([]string{"mempool", "timeout"}).Draw(t, "congestionkind")
+		sc.OutageMs = rapid.SampledFrom([]int{45_000, 90_000}).Draw(t, "congestionlen")
+	}
 	if rapid.IntRange(0, 4).Draw(t, "slowexec") == 0 {
 		sc.ExecMs = rapid.SampledFrom([]int{sc.BlockMs / 2, 2 * sc.BlockMs}).Draw(t, "exec")
 	}
@@ -152,6 +159,9 @@ func runLoops(sc LoopScenario, dir string) world.Verdict {
 		}
 		if len(sc.Arrivals) == 0 {
 			labels = append(labels, "idle-chain")
+		}
+		if sc.OutageMs >= 45_000 && (sc.OutageKind == "mempool" || sc.OutageKind == "timeout") {
+			labels = append(labels, "congestion-of-thousands-of-refused-attempts")
 		}
 		limitHit := pendingAtEnd >= uint64(sc.Limit)
 		if limitHit {
